@@ -13,7 +13,7 @@ T = {
          "variance, likelihood-added noise); batch dimensions carried only by the targets / the noise / the mean.",
          "values outside the finite data/parameter lattice; Lanczos below full rank is an approximation and not claimed"),
  "C02": (G, "3", "every cell of (family x likelihood x prior assignment x batch shape x objective {MLL, LOO, SumMLL} x path) compared in value "
-         "AND gradient (autograd of an independent dense reference); a prior-bearing kernel object used twice; re-evaluation after a parameter update",
+         "AND gradient (autograd of an independent dense reference); a prior-bearing kernel object used twice; re-evaluation after a parameter update; every prior handed to a constructor is among the priors the model reports",
          "stochastic Lanczos log-det is a statistical estimator: only the deterministic Cholesky path (and CG inv-quad part) is decided"),
  "C03": (S, "3", "all operation sequences up to the depth bound over the public state-changing alphabet, on exact (default / KISS / SGPR / "
          "grid / multitask) and variational models; on every predict transition the output is compared with a freshly built model holding "
